@@ -294,18 +294,18 @@ def write_evidence(prop, tier, seed, level, coverage, assumptions, wall, nviol):
 # --------------------------------------------------------------------------- C18
 
 C18_PLAN = {
-    "quick": dict(runs=20000, scheds=4, cold=128, selftest=192, miri_light=6, miri_full=2, miri_conv=8, budget=900),
+    "quick": dict(runs=20000, scheds=4, cold=128, selftest=192, miri_light=4, miri_full=2, miri_conv=16, budget=900),
     "thorough": dict(runs=750000, scheds=4, cold=2048, selftest=2048, miri_light=192, miri_full=48, miri_conv=192, budget=7200),
 }
 
 
-def selftest(seed, n, raws):
+def selftest(seed, n, raws, layouts=None, quiet=False, only_run=None):
     """Determinism of the simulator itself (O4): the same runs executed in different
     process layouts must give identical logs. First difference at an S (scheduler /
     seam) line with identical history => harness bug => exit 2. First difference at
     an O (library-produced observation) line => the library's output depended on
     something other than its inputs => C18 violation."""
-    layouts = [1, 3, 8]
+    layouts = layouts or [1, 3, 8]
     logs = {}
     b = Batch("selftest")
     for W in layouts:
@@ -344,6 +344,8 @@ def selftest(seed, n, raws):
     items = 0
     for W in layouts[1:]:
         for i, lines in logs[W].items():
+            if only_run is not None and i != only_run:
+                continue
             ref = base.get(i)
             if ref is None:
                 continue  # a worker that found violations stops early; they are reported from `raws`
@@ -359,23 +361,35 @@ def selftest(seed, n, raws):
                 #    library emitted different spans, e.g. a correct memo that skips work. C18 does not
                 #    speak about tracing; tolerated and counted;
                 #  - an S line or anything else with identical history => harness nondeterminism => exit 2.
-                ra = sorted(x for x in ref if x.startswith(("R ", "O ev ", "O cb_")))
-                rc_ = sorted(x for x in lines if x.startswith(("R ", "O ev ", "O cb_")))
-                soft = a.startswith(("O span", "O event", "S ")) and c.startswith(("O span", "O event", "S ")) and (
-                    a.startswith("O ") or c.startswith("O ") or "trace" in a or "trace" in c)
-                if ra != rc_:
+                # R line: "R <task> <depth> <operation key hash> <result hash>". The same operation key
+                # must have the same result hash in both processes; which task ran it, and whether a
+                # planned nested operation fired at all (they are placed at the n-th tracing seam), may
+                # legitimately differ when tracing emission differs.
+                def rmap(ls):
+                    m = {}
+                    for x in ls:
+                        if x.startswith("R "):
+                            _, _t, _d, k_, h_ = x.split()
+                            m.setdefault(k_, set()).add(h_)
+                    return m
+                ma, mc = rmap(ref), rmap(lines)
+                ra = sorted(f"{k_}:{sorted(v)}" for k_, v in ma.items() if k_ in mc and mc[k_] != v)
+                rc_ = sorted(f"{k_}:{sorted(mc[k_])}" for k_, v in ma.items() if k_ in mc and mc[k_] != v)
+                def tracing_item(x):
+                    return x.startswith(("O span", "O event")) or (x.startswith("S ") and x.endswith(" trace"))
+                soft = tracing_item(a) or tracing_item(c)
+                if ra:
                     divergences += 1
                     os.makedirs(REPLAYS, exist_ok=True)
                     p = os.path.join(REPLAYS, f"C18-crossprocess-{seed}-{i}.json")
-                    da = [x for x in ra if x not in rc_][:2]
-                    dc = [x for x in rc_ if x not in ra][:2]
+                    da, dc = ra[:2], rc_[:2]
                     json.dump({"property": "C18", "class": "cross-process-divergence", "violations": [
                         {"class": "cross-process-divergence", "key": "", "phase": "selftest",
                          "detail": f"run {i}: library-produced results differ between a 1-process and a {W}-process layout (same run seed, different process history): {da} vs {dc}; first differing log item {k}: {a!r} vs {c!r}"}],
                         "provenance": {"verif_seed": seed, "salt": 4, "run_index": i, "run_seed": 0, "worker": 0, "workers": W, "sched_index": 0},
                         "notes": [f"re-run: cooksim c18 --seed {seed} --salt 4 --runs {n} --scheds 2 --workers 1 --worker 0 --dump-log A.txt and the same with --workers {W} --worker {i % W} --dump-log B.txt; compare the blocks of RUN {i}"]},
                         open(p, "w"), indent=1)
-                    if divergences <= 3:
+                    if divergences <= 3 and not quiet:
                         log(f"  cross-process divergence in library-produced results, run {i}: {da} vs {dc}")
                         log(f"VIOLATION property=C18 replay={p}")
                 elif soft:
@@ -729,6 +743,80 @@ def check_c11(tier, seed):
 
 # --------------------------------------------------------------------------- main
 
+def replay(path):
+    """Re-run what a replay file describes, in fresh processes. Exit 1 + VIOLATION line if the
+    recorded violation class is observed again, 0 if not."""
+    if path.endswith(".txt"):
+        # not-sync: the compiler output is the evidence; the replay is the probe build itself
+        rc, out = cargo_build("sendsync_probe")
+        if rc != 0 and ("cannot be shared between threads safely" in out or "cannot be sent between threads safely" in out):
+            log(out[-1500:])
+            log(f"VIOLATION property=C18 replay={path}")
+            return 1
+        log("NOT-REPRODUCED: the Send + Sync probe builds")
+        return 0
+    rf = json.load(open(path))
+    prop, cls = rf.get("property", "C18"), rf.get("class", "")
+    prov = rf.get("provenance") or {}
+    if cls.startswith("miri"):
+        note = next((n for n in rf.get("notes", []) if "MIRIFLAGS" in n), "")
+        import re
+        m = re.search(r"-Zmiri-seed=(\d+) -Zmiri-preemption-rate=([0-9.]+).*-- (\w+) (\d+)", note)
+        if not m:
+            die("miri replay file without a replay command")
+        s_, rate, shape, _ = m.groups()
+        d = os.path.join(HERE, "cookmiri")
+        env = {**ENV, "CARGO_TARGET_DIR": os.path.join(TARGET, "miri"), "MIRIFLAGS": f"-Zmiri-seed={s_} -Zmiri-preemption-rate={rate}"}
+        rc, out = run(["cargo", "+nightly", "miri", "run", "--offline", "-q", "--", shape, s_], cwd=d, env=env, timeout=3600)
+        if rc == 0 and "COOKMIRI-OK" in out:
+            log(f"NOT-REPRODUCED property={prop} class={cls}")
+            return 0
+        log(out[-2000:])
+        log(f"VIOLATION property={prop} replay={path}")
+        return 1
+    if cls == "history-dependence" and prov.get("salt") == 3 and "scenario" not in rf:
+        # cold-start pair: two fresh processes, forward and reverse reference order
+        os.makedirs(TMP, exist_ok=True)
+        tabs = []
+        for order in ("fwd", "rev"):
+            f = os.path.join(TMP, f"replay-refs-{os.getpid()}-{order}.txt")
+            rc, out = run([BIN, "c18", "--seed", str(prov["verif_seed"]), "--salt", "3", "--start", str(prov["run_index"]), "--runs", "1", "--scheds", "1",
+                           "--ref-order", order, "--dump-refs", f, "--out", f + ".json", "--replay-dir", TMP], timeout=600)
+            tabs.append(sorted(l.rstrip("\n").split("\t", 2)[1:] for l in open(f)))
+            for x in (f, f + ".json"):
+                if os.path.exists(x):
+                    os.remove(x)
+        diff = [x for x in tabs[0] if x not in tabs[1]]
+        if diff:
+            log(f"REPRODUCED: forward and reverse reference tables differ on {len(diff)} key(s): {diff[:3]}")
+            log(f"VIOLATION property={prop} replay={path}")
+            return 1
+        log(f"NOT-REPRODUCED property={prop} class={cls}")
+        return 0
+    if cls == "cross-process-divergence":
+        i, W, seed = prov["run_index"], prov["workers"], prov["verif_seed"]
+        raws = []
+        st = selftest(seed, i + 1, raws, layouts=[1, W], quiet=True, only_run=i)
+        if st["divergences"] or raws:
+            log(f"REPRODUCED: run {i} differs between a 1-process and a {W}-process layout")
+            log(f"VIOLATION property={prop} replay={path}")
+            return 1
+        log(f"NOT-REPRODUCED property={prop} class={cls}")
+        return 0
+    if cls == "hang":
+        rc, out = run([BIN, "replay", path], timeout=300)
+        rc2, out2 = run([BIN, "realthreads", "--seed", str(prov.get("verif_seed", 1)), "--salt", str(prov.get("salt", 1)), "--run-index", str(prov.get("run_index", 0))], timeout=120)
+        if rc == 124 and rc2 != 0:
+            log(f"REPRODUCED: the run hangs under the simulator and {'hangs' if rc2 == 124 else 'mismatches'} on real threads")
+            log(f"VIOLATION property={prop} replay={path}")
+            return 1
+        log(f"NOT-REPRODUCED property={prop} class={cls} (simulator rc={rc}, real threads rc={rc2})")
+        return 0
+    rc, out = run([BIN, "replay", path], timeout=1800)
+    log(out.rstrip())
+    return rc
+
+
 def setup():
     t0 = time.time()
     os.makedirs(TMP, exist_ok=True)
@@ -772,14 +860,7 @@ def main():
         if isinstance(b, tuple):
             log(f"VIOLATION property=C18 replay={b[1]}")
             sys.exit(1)
-        path = sys.argv[2]
-        rf = json.load(open(path))
-        if rf.get("class", "").startswith("miri") or "scenario" not in rf and "aisle" not in rf:
-            for n in rf.get("notes", []):
-                log(n)
-            die("this replay file is replayed by the command in its notes", 2)
-        rc = subprocess.run([BIN, "replay", path], env=ENV).returncode
-        sys.exit(rc)
+        sys.exit(replay(sys.argv[2]))
     die(f"unknown command {cmd}")
 
 
